@@ -1,11 +1,13 @@
 #!/bin/bash
 # try_mutant.sh <patch.diff> <property> [tier]: apply a seeded change to /repo, run that property's check, undo the change.
-# prints the check's tail and its exit code.  Never leaves /repo modified.
+# prints the check's tail and its exit code.  Never leaves /repo modified; the evidence file of the property (which the
+# check rewrites) is put back afterwards, so that /verif/evidence keeps describing the unchanged tree.
 set -u
 patch="$(readlink -f "$1")"; prop="$2"; tier="${3:-quick}"
 cd /repo || exit 2
 git diff --quiet || { echo "/repo has uncommitted changes"; exit 2; }
 git apply "$patch" || { echo "patch does not apply"; exit 2; }
-trap 'git -C /repo checkout -- . ' EXIT
+keep="$(mktemp)"; cp "/verif/evidence/$prop.json" "$keep" 2>/dev/null
+trap 'git -C /repo checkout -- . ; [ -s "$keep" ] && cp "$keep" "/verif/evidence/$prop.json"; rm -f "$keep"' EXIT
 cd /verif && ./check.sh "$prop" "$tier" 2>&1 | grep -E "^violation|VIOLATION|KNOWN-FINDING|INFRA|^  |^C[0-9][0-9] (quick|thorough|sweep)" | cut -c1-400 | head -40
 echo "exit=${PIPESTATUS[0]}"
